@@ -750,7 +750,7 @@ func gen(r *h.Rand, tier string, emit func([]string)) {
 		sort.Strings(edges)
 		emit([]string{"lockorder " + h.Join(edges), "steporder"})
 	}
-	n := 150
+	n := 110
 	if tier == "thorough" {
 		n = 2500
 	}
